@@ -505,8 +505,9 @@ class E2E:
         """one harness process for all lines; when the harness stops on a line (sanitizer report), that line
         gets the result None and the run resumes after it"""
         res, start = [], 0
-        # leak checking off here: OpenSSL's one-time digest fetch (xar, 7zip...) is reported at exit otherwise
-        env = dict(ASAN_OPTIONS="detect_leaks=0:abort_on_error=0:exitcode=99")
+        # leaks are looked for at exit (what an abandoned entry leaves behind - a digest context, a decoder - and
+        # archive_read_free does not release); the culprit is then searched for by running the lines one by one
+        env = dict(ASAN_OPTIONS="detect_leaks=1:abort_on_error=0:exitcode=99")
         while start < len(lines):
             rc, outs, err = vlib.run_exe(self.exe, vlib.write_cases(lines[start:], "c06-%s.cases" % tag), timeout=1500, env=env)
             res += [vparse(o) for o in outs[:len(lines) - start]]
@@ -514,6 +515,8 @@ class E2E:
                 break
             k = len(res)
             if k >= len(lines):
+                if rc != 0 and "LeakSanitizer" in err and not baseline:
+                    self.leak_search(lines[start:], err)
                 break
             key = "crash:readData:" + vlib.crash_key(err)
             summ = "; ".join(l.strip() for l in err.split("\n") if "runtime error" in l or "ERROR: " in l or "TIMEOUT" in l)[:300]
@@ -527,6 +530,21 @@ class E2E:
             res.append(None)
             start = len(res)
         return res
+
+    def leak_search(self, lines, err):
+        env = dict(ASAN_OPTIONS="detect_leaks=1:abort_on_error=0:exitcode=99")
+        first = None
+        for l in lines:
+            rc, outs, e1 = vlib.run_exe(self.exe, vlib.write_cases([l], "c06-leak.cases"), timeout=600, env=env)
+            if rc != 0 and "LeakSanitizer" in e1:
+                first = (l, e1)
+                break
+        l, e1 = first if first else (lines[0], err)
+        where = vlib.crash_key(e1)
+        self.rep.violation("C06:leak:" + where, "memory obtained while reading is still allocated after archive_read_free when entry bodies are consumed "
+                           "like this (the read-everything run of the same archive leaves nothing behind): %s" %
+                           "; ".join(x.strip() for x in e1.split("\n") if "SUMMARY" in x)[:200],
+                           dict(case=l, stderr=e1[-3000:], archive=self.spec_of(l)), found_input=first is not None)
 
     def spec_of(self, line):
         p = vparse(line)[1].decode()
